@@ -200,6 +200,16 @@ pub fn generate(_ctx: &mut Ctx, seed: u64, i: usize, kind: &str, always_malforme
             src += &format!("{indent}{}</block>{}\n", lang.open, lang.close);
         }
     }
+    // one case in five: a further block with the same rule whose two tags share one comment (or sit in two comments glued
+    // together): its content is the EMPTY string - zero lines, zero keys - whatever the blocks before it held
+    if kind != "affects" && rng.chance(1, 5) {
+        match rng.below(3) {
+            0 => src += &format!("{}{tag}</block>{}\n", lang.open, lang.close),
+            1 => src += &format!("{}{tag} and </block>{}\n", lang.open, lang.close),
+            _ if !lang.close.is_empty() => src += &format!("{}{tag}{}{}</block>{}\n", lang.open, lang.close, lang.open, lang.close),
+            _ => src += &format!("{}{tag} </block>{}\n", lang.open, lang.close),
+        }
+    }
     // one case in six: an exact copy of everything written so far (same tags, same attributes, same content) appended to the
     // file, and one case in six: the same text again as a second file - a result, a key set or a compiled rule remembered
     // from one block must not leak into an identical block elsewhere (its own position, its own verdict)
